@@ -41,7 +41,10 @@ class QTag:
         return self
 
 
-def _recorders(rec):
+def _recorders(rec, run_real=False):
+    """run_real: the NumPy fallbacks (window-only and mean-removal families) are ALSO executed for real (C01's clone of the kernel on
+    the arguments it is handed) before the fresh symbols are returned -- whatever the kernel does to the arrays it receives (the
+    analyzer's own record, the cached window) then happens to them, as in a real analysis"""
     out = {}
     for backend in K.BACKENDS:
         for fam in K.FAMILIES:
@@ -51,6 +54,18 @@ def _recorders(rec):
                 def f(*args, _b=backend, _f=fam, _m=mode):
                     i = rec.n
                     rec.n += 1
+                    if run_real and _b == "numpy" and _f != "poly":
+                        try:
+                            from symx.proxy import Omega
+                            # (the analysis angle is irrelevant for what the kernel does to its arrays: a fixed Pythagorean point)
+                            K.sym_modules()[0][K.fname(_b, _f, _m)](*(list(args[:-1]) + [Omega(SR(z3.RealVal(3) / 5), SR(z3.RealVal(4) / 5))]))
+                        except (ctx.NeedFork, SymbolicBranch, KeyboardInterrupt):
+                            raise
+                        except Exception as e:
+                            rec.real_errors = getattr(rec, "real_errors", []) + [repr(e)[:200]]
+                            import os
+                            if os.environ.get("SYMX_DEBUG"):
+                                import traceback; traceback.print_exc()
                     ret = tuple(SR(z3.Real("ret%d_%s" % (i, nm))) for nm in K.STAT_NAMES)
                     rec.calls.append(dict(backend=_b, fam=_f, mode=_m, args=args, ret=ret))
                     return ret
@@ -58,7 +73,7 @@ def _recorders(rec):
     return out
 
 
-def _sym_setup(rec, win_kind):
+def _sym_setup(rec, win_kind, run_real=False):
     """the whole analysis module re-created over one namespace: kernels -> recorders, numpy -> shim, window/Q builders -> tags"""
     import speckit.analysis as A
     from symx.shim import clone_module
@@ -75,7 +90,7 @@ def _sym_setup(rec, win_kind):
         return rec.wins[key].copy().view(SymNd)
     NP = NumpyShim(interp=R.interp_stub)
     over = dict(np=NP, _build_Q=lambda L, order: (rec.q_calls.append((int(L), int(order))) or QTag(int(L), int(order))))
-    over.update(_recorders(rec))
+    over.update(_recorders(rec, run_real))
     if win_kind == "kaiser":
         over["np_kaiser"] = win_stub
         over["sp_kaiser"] = kz
